@@ -516,3 +516,48 @@ def check_err3(ctx, f: FuncInfo, rule: str) -> None:
             )
         else:
             ctx.ok(rule, f, decl, what=f"accumulator {name}")
+
+
+# ---------------------------------------------------------------------------
+# RET-XOR
+
+
+def has_xor_ensure(f: FuncInfo) -> bool:
+    for d in f.node.decorator_list:
+        if isinstance(d, ast.Call) and dotted_of(d.func) in ("ensure", "icontract.ensure") and d.args and isinstance(d.args[0], ast.Lambda):
+            b = norm(d.args[0].body)
+            if "^" in b and "result[0]" in b and "result[1]" in b:
+                return True
+    return False
+
+
+def _definitely(e: ast.AST) -> Optional[bool]:
+    """True: definitely not None; False: definitely None; None: unknown."""
+    if isinstance(e, ast.Constant):
+        return e.value is not None
+    if isinstance(e, (ast.List, ast.Tuple, ast.Dict, ast.Set, ast.JoinedStr, ast.ListComp, ast.DictComp, ast.SetComp)):
+        return True
+    return None
+
+
+def check_ret_xor(ctx, f: FuncInfo, rule: str) -> None:
+    """Every ``return`` of a function declaring the XOR post-condition returns a
+    pair with exactly one ``None`` as far as constants tell."""
+    if not has_xor_ensure(f):
+        return
+    art = artefacts(ctx.ty, f)
+    for node in art.cfg.nodes:
+        if node.kind == "end" and node.id in art.cfg.reachable():
+            ctx.fail(rule, f, f.node, "a path falls off the end of a function whose post-condition promises a (value, error) pair", construct="implicit return None")
+        if node.kind != "return" or node.expr is None:
+            continue
+        e = node.expr
+        if isinstance(e, ast.Tuple) and len(e.elts) == 2:
+            a, b = _definitely(e.elts[0]), _definitely(e.elts[1])
+            what = f"return {short(e, 60)}"
+            if a is False and b is False:
+                ctx.fail(rule, f, node.stmt, "returns (None, None) although the post-condition promises exactly one of value and error: the caller's `assert value is not None` fails", construct=what)
+            elif a is True and b is True:
+                ctx.fail(rule, f, node.stmt, "returns both a value and an error although the post-condition promises exactly one", construct=what)
+            else:
+                ctx.ok(rule, f, node.stmt, what=what, nontrivial=(a is not None or b is not None))
